@@ -911,7 +911,11 @@ def run_check(pid, tier, seed):
         raise ToolError(f'property {pid} has no check (see MANIFEST.json not_applicable)')
     t0 = time.time()
     spec = PROPS[pid]
-    results = [run_engine(e, tier, seed) for e in spec['engines']]
+    engines = spec['engines']
+    only = os.environ.get('VERIF_ENGINES')      # internal: restrict to some engines (seeded-change regression)
+    if only:
+        engines = [e for e in engines if e in only.split(',')] or engines
+    results = [run_engine(e, tier, seed) for e in engines]
     known = load_known()
     viols = []
     counts = {}
